@@ -46,6 +46,9 @@ def one(N, m, bx, env, trials, run=None, probe=False, mode="seq"):
                 run.solver.evolvent.GetInverseImage(np.array(q))
                 run.step(1)
                 run.solver.evolvent.GetPreimages(np.array(q))
+                # the same read-only question about the trial just made, asked with the array the library handed out
+                run.solver.evolvent.GetPreimages(run.solver.searchData.GetLastItem().GetY().floatVariables)
+                run.solver.evolvent.GetPreimages(run.solver.GetResults().bestTrials[0].point.floatVariables)
         else:
             run.solve()
     except BaseException as e:
@@ -65,6 +68,21 @@ def one(N, m, bx, env, trials, run=None, probe=False, mode="seq"):
                         f"the 2^{m} grid: (y-lower)/(upper-lower)*2^m - 1/2 = {c.tolist()}")
             break
         cells.add(tuple(ci.tolist()))
+    if not msgs:
+        # the trial points as the solver keeps and reports them (the search information and the reported optimum)
+        stored = [("stored trial", np.asarray(it.GetY().floatVariables, dtype=float)) for it in run.solver.searchData
+                  if it.GetIndex() >= 0 and 0.0 < it.GetX() < 1.0]
+        try:
+            stored.append(("reported optimum", np.asarray(run.solver.GetResults().bestTrials[0].point.floatVariables, dtype=float)))
+        except Exception:
+            pass
+        if mode != "refine":
+            for what, y in stored:
+                c = (y - lo_a) / w * 2 ** m - 0.5
+                if np.abs(c - np.rint(c)).max() > 1e-6:
+                    msgs.append(f"N={N} evolventDensity={m} box={bx} {env}: the {what} {y.tolist()} is not a cell centre of the "
+                                f"2^{m} grid")
+                    break
     return msgs, len(run.problem.log), len(cells)
 
 
